@@ -535,6 +535,18 @@ func (e *specEnv) call(ex SCall) Value {
 		key := x.box(e.s, x.h.zeroValue(kt))
 		m := x.h.region(e.s, "CTX", 2, SInt)
 		return Value{T: types.NewInterfaceType(nil, nil), Term: c.Read(m, cv.Term, key)}
+	case "gset":
+		// gset("name", x): membership of x in the ghost set `name` (a ghost region, changed only through
+		// the modifies/ensures of (trusted) contracts)
+		gs, ok := ex.Args[0].(SStr)
+		if !ok {
+			e.fail("gset needs a set name")
+		}
+		v := arg(1)
+		if v.Term == nil {
+			e.fail("gset element must be a scalar")
+		}
+		return Value{T: boolT, Term: c.Read(x.h.region(e.s, "GHOST|"+gs.Val, 1, SBool), v.Term, nil)}
 	case "plainError":
 		// dynamic type is errors.New's (no Unwrap, no Is)
 		v := arg(0)
@@ -762,6 +774,13 @@ func (e *specEnv) evalModTargets(ex SExpr) []modTarget {
 					lo, hi = e.ev(ex.Args[1]).Term, e.ev(ex.Args[2]).Term
 				}
 				return elemsOf(sv, lo, hi)
+			case "gset":
+				gs, ok := ex.Args[0].(SStr)
+				if !ok {
+					e.fail("gset needs a set name")
+				}
+				x.h.schema["GHOST|"+gs.Val] = []regionSchema{{"GHOST|" + gs.Val, 1, SBool}}
+				return []modTarget{{prefix: "GHOST|" + gs.Val, match: func(ref, idx *Term) *Term { return c.True() }}}
 			case "elemsField":
 				// elemsField(s, "f.g"): the leaves below field path f.g of every cell of s
 				sv := e.ev(ex.Args[0])
